@@ -1094,6 +1094,8 @@ def stabilised_dtype_block(ctx):
                                      expected=jv(held.ravel().tolist()[k]), got=jv(g), python=py)
                             break
                         ref = safediv_ref(xv, yv, fmax)
+                        if dt is np.float32 and form == "number" and math.isfinite(ref) and abs(ref) > fmax:
+                            ref = math.copysign(INF, ref)      # x * finfo(float32).max overflows the float32 result
                         ctx.count("dtype:stabilised:cells")
                         if ref == ref and not (same(g, ref) or (math.isfinite(ref) and math.isfinite(g)
                                                                 and abs(g - ref) <= (1e-6 if dt is np.float32 else 1e-12) * max(1.0, abs(ref)))):
